@@ -139,8 +139,13 @@ def _twod(cfg, B):
     d = cm.build2d(B, dict(cfg, flux='centered', kappa='sym'))
     rhs = d['rhs']
     rhs.rhs(d['field'])
-    rho = d['prim'][0]
-    pL, pR = rhs.pL[0], rhs.pR[0]
+    comps = [('rho', d['prim'][0], rhs.pL[0], rhs.pR[0]), ('u', d['prim'][1][0], rhs.pL[1][0], rhs.pR[1][0]),
+             ('v', d['prim'][1][1], rhs.pL[1][1], rhs.pR[1][1]), ('p', d['prim'][2], rhs.pL[2], rhs.pR[2])]
+    for cname, rho, pL, pR in comps:      # scalar and vector (momentum) branches of the 2D reconstruction
+        _twod_comp(B, cfg, d, cname, rho, pL, pR, nx, ny)
+
+
+def _twod_comp(B, cfg, d, cname, rho, pL, pR, nx, ny):
     first = cfg['num'] == 'extrapol2d1'
     kap = B.const(-1) if first else d['num'].kprec
     km, kp = (1 - kap) / 4, (1 + kap) / 4
@@ -156,8 +161,8 @@ def _twod(cfg, B):
             else:
                 L = c(i - 1, j) + km * (c(i - 1, j) - c(i - 2, j)) + kp * (c(i, j) - c(i - 1, j))
                 R = c(i, j) - km * (c(i + 1, j) - c(i, j)) - kp * (c(i, j) - c(i - 1, j))
-            B.ob('x-face-L[%d,%d]' % (i, j), 'eq', pL[f], L)
-            B.ob('x-face-R[%d,%d]' % (i, j), 'eq', pR[f], R)
+            B.ob('%s:x-face-L[%d,%d]' % (cname, i, j), 'eq', pL[f], L)
+            B.ob('%s:x-face-R[%d,%d]' % (cname, i, j), 'eq', pR[f], R)
     for j in range(ny + 1):
         for i in range(nx):          # j-face between cells (i,j-1) and (i,j), periodic
             f = nxf + j * nx + i
@@ -166,5 +171,5 @@ def _twod(cfg, B):
             else:
                 L = c(i, j - 1) + km * (c(i, j - 1) - c(i, j - 2)) + kp * (c(i, j) - c(i, j - 1))
                 R = c(i, j) - km * (c(i, j + 1) - c(i, j)) - kp * (c(i, j) - c(i, j - 1))
-            B.ob('y-face-L[%d,%d]' % (i, j), 'eq', pL[f], L)
-            B.ob('y-face-R[%d,%d]' % (i, j), 'eq', pR[f], R)
+            B.ob('%s:y-face-L[%d,%d]' % (cname, i, j), 'eq', pL[f], L)
+            B.ob('%s:y-face-R[%d,%d]' % (cname, i, j), 'eq', pR[f], R)
